@@ -146,10 +146,90 @@ def _a_layout(chk, D):
         raise AnalysisError("anchor: module-level _init_index_tables(<degree>) not found")
     chk.check(isinstance(gdeg, int) and gdeg <= pr.MASK, "C06.a", f"{PB}[global table degree]", f"global table degree {gdeg} exceeds the largest exponent a 6-bit field can hold (63)",
               sample=f"global degree {gdeg} <= 63")
+    _a_widths(chk, gdeg)
     # the global inverse lookup is built from the same arrays (enumerate -> d[packed] = idx)
     enc2 = ip.call_function(PB, "_create_encode_dict_from_clmo", [clmo])
     ok = all(enc2[d].get(int(S(clmo[d][pos]))) == pos or int(S(enc2[d].get(int(S(clmo[d][pos]))))) == pos for d in range(min(D, 4) + 1) for pos in range(len(clmo[d])))
     chk.check(ok, "C06.a", f"{PB}::_create_encode_dict_from_clmo", "inverse lookup is not built by enumerating the packed arrays", sample="d[packed] = position")
+
+
+INT_CAP = {"int8": 2 ** 7 - 1, "uint8": 2 ** 8 - 1, "int16": 2 ** 15 - 1, "uint16": 2 ** 16 - 1, "int32": 2 ** 31 - 1, "uint32": 2 ** 32 - 1,
+           "int64": 2 ** 63 - 1, "uint64": 2 ** 64 - 1, "intp": 2 ** 63 - 1, "int_": 2 ** 63 - 1}
+
+
+def _a_widths(chk, gdeg):
+    """Every fixed-width integer type the layout code stores a slot number or a packed multi-index in can hold the largest
+    value that occurs at the library's table degree `gdeg` (silent wrap-around inside njit otherwise).
+
+    The role of a cast site is inferred from the values that flow through it when the table builders are interpreted
+    at two small degrees: a site whose largest operand is psi[6,d]-1 at both degrees carries slot numbers (needs
+    psi[6,gdeg]-1), one whose largest operand is the largest packed index carries packed multi-indices (needs gdeg<<24)."""
+    enclosing_function_name = ri.enclosing_function_name
+    seen = {}
+    for d in (3, 5):
+        ip = Interp(max_depth=30)
+        ip.cast_log = []
+        psi, clmo = ip.call_function(PB, "_init_index_tables", [d])
+        ip.call_function(PB, "_create_encode_dict_from_clmo", [clmo])
+        pos_max = math.comb(d + 5, 5) - 1
+        packed_max = max(int(S(v)) for v in clmo[d])
+        for name, v, modname, line, st in ip.cast_log:
+            if v is None:
+                continue
+            key = (modname, enclosing_function_name(st), ri.norm_stmt(st)[:80], name)
+            rec = seen.setdefault(key, {})
+            rec[d] = max(rec.get(d, -1), v)
+            rec.setdefault("ref", {})[d] = (pos_max, packed_max)
+    need_pos = math.comb(gdeg + 5, 5) - 1
+    need_packed = gdeg << 24
+    n_sites = 0
+    for (modname, fn, text, tname), rec in sorted(seen.items()):
+        if 3 not in rec or 5 not in rec:
+            continue
+        roles = set()
+        for d in (3, 5):
+            pm, km = rec["ref"][d]
+            roles.add("slot" if rec[d] == pm else "packed" if rec[d] == km else "other")
+        if len(roles) != 1 or "other" in roles:
+            chk.note(f"integer cast {tname} in {fn}: role not inferred (largest operands {rec[3]}, {rec[5]})")
+            continue
+        role = roles.pop()
+        need = need_pos if role == "slot" else need_packed
+        n_sites += 1
+        chk.check(INT_CAP.get(tname, 0) >= need, "C06.a", f"{modname}::{fn}[{tname} holds {role}]",
+                  f"{tname}(...) in `{text}` carries {role} values but cannot hold {need} (largest {role} value at the table degree {gdeg}); numba wraps silently",
+                  sample=f"{fn}: {tname} >= {need} ({role} at degree {gdeg})")
+    # declared container element types: numba dict key/value types and the dtype of the packed arrays
+    mod = ri.need_module(PB)
+    n_decl = 0
+    for node in ast.walk(mod.tree):
+        if not isinstance(node, ast.Call):
+            continue
+        fname = ast.unparse(node.func)
+        pairs = []
+        if fname.endswith("DictType") and len(node.args) == 2:
+            pairs = [("packed", node.args[0]), ("slot", node.args[1])]
+        elif fname.endswith("Dict.empty"):
+            kws = {k.arg: k.value for k in node.keywords}
+            pairs = [("packed", kws.get("key_type")), ("slot", kws.get("value_type"))]
+        elif fname in ("np.empty", "np.zeros", "numpy.empty", "numpy.zeros"):
+            kws = {k.arg: k.value for k in node.keywords}
+            owner = enclosing_function_name(node)
+            if owner == "_init_index_tables" and kws.get("dtype") is not None and ast.unparse(kws["dtype"]).split(".")[-1] in INT_CAP and \
+                    not (node.args and isinstance(node.args[0], ast.Tuple)):
+                pairs = [("packed", kws["dtype"])]
+        for role, tnode in pairs:
+            if tnode is None:
+                continue
+            tname = ast.unparse(tnode).split(".")[-1]
+            if tname not in INT_CAP:
+                continue
+            n_decl += 1
+            need = need_pos if role == "slot" else need_packed
+            chk.check(INT_CAP[tname] >= need, "C06.a", f"{PB}[{fname} {role} type, line-independent #{n_decl}]",
+                      f"declared element type {tname} for {role} values cannot hold {need} (table degree {gdeg})", sample=f"{fname}: {tname} holds {role} values up to {need}", nontrivial=False)
+    chk.floor("integer cast sites with an inferred role", n_sites, 2)
+    chk.floor("declared integer element types in the layout module", n_decl, 3)
 
 
 # ------------------------------------------------------------------------------------------------ b
@@ -367,7 +447,7 @@ def _c_lists(chk, tier):
         return [pr.generic_arr(prefix, d, psi, supports.get(d, set())) for d in range(MD + 1)]
 
     P = mk("a", {0: {0}, 1: {0, 3}, 2: {2, 9}})
-    Q = mk("b", {1: {1, 4}, 2: {0, 20}, 3: {7}})
+    Q = mk("b", {0: {0}, 1: {1, 4}, 2: {0, 20}, 3: {7}})
     Pe, Qe = pr.list_to_expr(P, clmo), pr.list_to_expr(Q, clmo)
     R = ip().call_function(PO, "_polynomial_multiply", [P, Q, MD, psi, clmo, enc])
     diff = sp.expand(pr.list_to_expr(R, clmo) - pr.truncate(Pe * Qe, MD))
